@@ -640,7 +640,7 @@ def classify(desc):
             mag = abs(float(m.group(5)))
         except ValueError:
             mag = 0.0
-        size = "magnitude >= 2^63" if mag >= 2.0 ** 63 else "magnitude < 2^63"
+        size = "magnitude >= 2^64" if mag >= 2.0 ** 64 else ("magnitude in [2^63, 2^64)" if mag >= 2.0 ** 63 else "magnitude < 2^63")
         return f"{m.group(1)} {m.group(2)}->{m.group(3)} {'negative' if m.group(4) else 'non-negative'} source, {size}"
     m = re.match(r"(\S+): (.*)", desc)
     ty, rest = m.group(1), m.group(2)
